@@ -40,7 +40,7 @@ def e2e(ctx):
         ctx.tlc("Cluster.tla", "Cluster_mc.cfg", workers=12, timeout=3600)
         # two CIDs: PinUpdate and cross-CID repinning are reachable (11.5 M distinct states, ~10 min)
         ctx.tlc("Cluster.tla", "Cluster_mc2.cfg", workers=12, timeout=3600)
-    n = 12 if ctx.quick() else 150
+    n = 18 if ctx.quick() else 150
     ctx.tlc("Cluster.tla", "Cluster_sim.cfg", count=False, workers=1, timeout=1200,
             simulate="file=e2e,num=%d" % n, depth=40, seed=ctx.seed * 17 + 5)
     scripts = []
@@ -51,7 +51,10 @@ def e2e(ctx):
             if a["name"] in ("Pin", "Unpin", "PeerFail", "PinUpdate", "PinExpiring", "StateSyncAll", "IpfsDown", "IpfsHeal", "RecoverAll"):
                 acts.append(a)
         if acts:
-            scripts.append({"id": "e%d" % k, "peers": ["p1", "p2", "p3"], "cids": ["c1", "c2", "c3"], "acts": acts})
+            # every third script runs against daemons that hold each pin/add for 150 ms (in-flight calls are then
+            # overtaken by later instructions and must be abandoned when their operation is cancelled)
+            scripts.append({"id": "e%d" % k, "peers": ["p1", "p2", "p3"], "cids": ["c1", "c2", "c3"], "acts": acts,
+                            "slow": 150 if k % 3 == 1 else 0})
     inp = os.path.join(ctx.work, "e2e_scripts.ndjson")
     with open(inp, "w") as f:
         for sc in scripts:
